@@ -1,164 +1,11 @@
-(* C15, stage 2: paths and types (recursive: list / set / map to any depth), every layout.
-   Proved for types without cpp_type clauses and without annotations ([simple_type]); the parser still tries both
-   after every type, which is why the lemmas carry *follow conditions* (what the text after the type must not be
-   mistaken for). *)
-From PVIdl Require Import Comb Ast Parser Print Proofs.Total Proofs.RoundTok.
+(* C15, stage 2: types (recursive: list / set / map to any depth, cpp_type clauses, annotation lists), every layout.
+   The parser tries a cpp_type clause, a '.', and an annotation list after every type, which is why the lemmas carry
+   *follow conditions* (what the text after the type must not be mistaken for). *)
+From PVIdl Require Import Comb Ast Parser Print Proofs.Total Proofs.RoundTok Proofs.RoundPath Proofs.RoundAnn.
 From Coq Require Import ZifyN ZifyNat ZifyBool.
 From Coq Require String.
 Import String.StringSyntax.
 Open Scope nat_scope.
-
-(* ---------- suffixes of printed text (fuel bookkeeping) ---------- *)
-Lemma sfx_app_r r a k : sfx r k -> sfx r (a ++ k).
-Proof. intros [p ->]. exists (a ++ p). now rewrite app_assoc. Qed.
-Lemma sfx_cons_r r (b : byte) k : sfx r k -> sfx r (b :: k).
-Proof. apply (sfx_app_r r [b]). Qed.
-Lemma sfx_atom r a k : sfx r k -> sfx r (pr_atom a k).
-Proof. destruct a; cbn [pr_atom]; intros H; repeat apply sfx_app_r; exact H. Qed.
-Lemma sfx_blank r bl k : sfx r k -> sfx r (pr_blank bl k).
-Proof. induction bl; cbn [pr_blank]; intros H; [exact H|]. apply sfx_atom. auto. Qed.
-Lemma sfx_path_tail r t k : sfx r k -> sfx r (pr_path_tail t k).
-Proof.
-  induction t as [|[[b1 b2] s] t IH]; cbn [pr_path_tail]; intros H; [exact H|].
-  apply sfx_blank, sfx_app_r, sfx_blank, sfx_app_r. auto.
-Qed.
-Lemma sfx_lit r l k : sfx r k -> sfx r (pr_lit l k).
-Proof. intros H. unfold pr_lit. apply sfx_cons_r, sfx_app_r, sfx_cons_r, H. Qed.
-Lemma sfx_sep r s k : sfx r k -> sfx r (pr_sep s k).
-Proof. destruct s; cbn [pr_sep]; intros H; [exact H|]. apply sfx_cons_r, sfx_blank, H. Qed.
-Lemma sfx_ann r a k : sfx r k -> sfx r (pr_ann a k).
-Proof.
-  intros H. unfold pr_ann. apply sfx_blank, sfx_app_r, sfx_blank, sfx_app_r, sfx_blank, sfx_lit, sfx_blank, sfx_sep, H.
-Qed.
-Lemma sfx_ann_list r l k : sfx r k -> sfx r (pr_ann_list l k).
-Proof. induction l; cbn [pr_ann_list]; intros H; [exact H|]. apply sfx_ann. auto. Qed.
-Lemma sfx_anns r l k : sfx r k -> sfx r (pr_anns l k).
-Proof. intros H. unfold pr_anns. apply sfx_app_r, sfx_ann_list, sfx_app_r, H. Qed.
-Lemma sfx_ocpp r c k : sfx r k -> sfx r (pr_ocpp c k).
-Proof.
-  destruct c as [c|]; cbn [pr_ocpp]; intros H; [|exact H]. unfold pr_cpp. apply sfx_blank, sfx_app_r, sfx_blank, sfx_lit, H.
-Qed.
-Lemma sfx_path r p k : sfx r k -> sfx r (pr_path p k).
-Proof. intros H. unfold pr_path. apply sfx_app_r, sfx_path_tail, H. Qed.
-#[export] Hint Resolve sfx_refl sfx_app_r sfx_cons_r sfx_blank sfx_path_tail sfx_lit sfx_sep sfx_anns sfx_ocpp sfx_path : sfxdb.
-
-Fixpoint sfx_ty (t : cty) : forall r k, sfx r k -> sfx r (pr_ty t k)
-with sfx_type (t : ctype) : forall r k, sfx r k -> sfx r (pr_type t k).
-Proof.
-  - destruct t; cbn [pr_ty]; intros r k H.
-    + apply sfx_app_r, H.
-    + apply sfx_app_r, sfx_blank, sfx_app_r, sfx_blank, sfx_type, sfx_blank, sfx_app_r, sfx_ocpp, H.
-    + apply sfx_app_r, sfx_ocpp, sfx_blank, sfx_app_r, sfx_blank, sfx_type, sfx_blank, sfx_app_r, H.
-    + apply sfx_app_r, sfx_ocpp, sfx_blank, sfx_app_r, sfx_blank, sfx_type, sfx_blank, sfx_cons_r, sfx_blank, sfx_type,
-        sfx_blank, sfx_app_r, H.
-    + apply sfx_path, H.
-  - destruct t as [t [[bl a]|]]; cbn [pr_type]; intros r k H.
-    + apply sfx_ty, sfx_blank, sfx_anns, H.
-    + apply sfx_ty, H.
-Qed.
-#[export] Hint Resolve sfx_ty sfx_type : sfxdb.
-
-(* deterministic: peel the printers of the enclosing text from the outside in *)
-Ltac sfx_step :=
-  first [ apply sfx_refl | apply sfx_app_r | apply sfx_cons_r | apply sfx_blank | apply sfx_type | apply sfx_ty
-        | apply sfx_ocpp | apply sfx_path_tail | apply sfx_path | apply sfx_lit | apply sfx_sep | apply sfx_anns ].
-Ltac sfx_of H := eapply sfx_trans; [|exact H]; repeat sfx_step.
-
-Lemma sfx_lt lf whole t : length whole < lf -> sfx t whole -> length t < lf.
-Proof. intros H S. apply sfx_len in S. lia. Qed.
-
-Ltac sfx_of0 H := eapply sfx_trans; [|exact H]; auto 60 with sfxdb.
-
-(* ---------- heads ---------- *)
-Lemma blank_start_not_identch b : blank_start b = true -> identch b = false.
-Proof. destruct b; vm_compute; intro H; try reflexivity; discriminate H. Qed.
-Lemma blank_start_wordend b : blank_start b = true -> (N.ltb (bn b) 128 && negb (identch b)) = true.
-Proof. destruct b; vm_compute; intro H; try reflexivity; discriminate H. Qed.
-Lemma identhead_nb b : (is_alpha b || is_underscore b) = true -> blank_start b = false.
-Proof. destruct b; vm_compute; intro H; try reflexivity; discriminate H. Qed.
-
-Lemma ident_nb s k : is_ident s = true -> nb (s ++ k) = true.
-Proof.
-  destruct s as [|h t]; [discriminate|]. cbn [is_ident]. intros H. apply andb_prop in H. destruct H as [H _].
-  cbn. now rewrite (identhead_nb h H).
-Qed.
-
-(* the head of [pr_blank bl k'] when bl is non-empty is a blank start; so every "next byte" condition that holds for
-   blank starts and (when bl is empty) for k' holds for the whole *)
-Lemma blank_then (f : byte -> bool) bl k' :
-  wf_blank bl = true -> (forall b, blank_start b = true -> f b = true) -> (bl = [] -> hd_sat f k' = true) ->
-  hd_sat f (pr_blank bl k') = true.
-Proof.
-  intros Hw Hf Hk. destruct bl as [|a bl]; [now apply Hk|].
-  destruct (blank_head (a :: bl) k' Hw ltac:(discriminate)) as [b [r [-> Hb]]]. cbn. auto.
-Qed.
-
-(* ---------- paths ---------- *)
-Definition pfollow (lf : nat) (k : list byte) : Prop :=
-  hd_sat (fun b => negb (identch b)) k = true /\ is_perr (p_path_sep lf k).
-
-Lemma dot_not_blank_start : blank_start x2e = false. Proof. reflexivity. Qed.
-
-Section WithFuel.
-Variable lf : nat.
-Variable whole : list byte.
-Hypothesis Hlf : length whole < lf.
-
-Lemma oblank bl k : wf_blank bl = true -> nb k = true -> sfx (pr_blank bl k) whole ->
-  exists o, opt (p_blank lf) (pr_blank bl k) = POk k o.
-Proof. intros Hw Hk S. apply rt_oblank; auto. eapply sfx_lt; eauto. Qed.
-
-Lemma path_tail_head t k : forallb (fun x => wf_blank (fst (fst x)) && wf_blank (snd (fst x)) && is_ident (snd x)) t = true ->
-  hd_sat (fun b => negb (identch b)) k = true -> hd_sat (fun b => negb (identch b)) (pr_path_tail t k) = true.
-Proof.
-  intros Hw Hk. destruct t as [|[[b1 b2] s] t]; [exact Hk|]. cbn [pr_path_tail forallb fst snd] in *.
-  apply andb_prop in Hw. destruct Hw as [Hw _]. apply andb_prop in Hw. destruct Hw as [Hw _]. apply andb_prop in Hw.
-  destruct Hw as [Hw1 _]. apply blank_then; auto.
-  - intros b Hb. now rewrite (blank_start_not_identch b Hb).
-Qed.
-
-Lemma path_loop : forall t k fuel,
-  forallb (fun x => wf_blank (fst (fst x)) && wf_blank (snd (fst x)) && is_ident (snd x)) t = true ->
-  pfollow lf k -> sfx (pr_path_tail t k) whole -> length (pr_path_tail t k) < fuel ->
-  sep_loop fuel (p_path_sep lf) p_ident (pr_path_tail t k) = POk k (map (fun x => snd x) t).
-Proof.
-  induction t as [|[[b1 b2] s] t IH]; intros k fuel Hw [Hk1 Hk2] S Hf.
-  - cbn [pr_path_tail map] in *. destruct fuel as [|f]; [lia|]. cbn [sep_loop].
-    destruct (p_path_sep lf k); cbn in Hk2; try contradiction. reflexivity.
-  - cbn [pr_path_tail forallb fst snd map] in *. apply andb_prop in Hw. destruct Hw as [Hw Hwt].
-    apply andb_prop in Hw. destruct Hw as [Hw Hs]. apply andb_prop in Hw. destruct Hw as [Hw1 Hw2].
-    destruct fuel as [|f]; [lia|]. cbn [sep_loop].
-    set (rest := pr_path_tail t k) in *.
-    assert (E : p_path_sep lf (pr_blank b1 (txt "." ++ pr_blank b2 (s ++ rest))) = POk (s ++ rest) tt).
-    { unfold p_path_sep.
-      destruct (oblank b1 (txt "." ++ pr_blank b2 (s ++ rest)) Hw1 eq_refl S) as [o1 ->]. cbn [pbind].
-      change sym_path_dot with (txt "."). rewrite tag_ok. cbn [pbind].
-      destruct (oblank b2 (s ++ rest) Hw2 (ident_nb s rest Hs) ltac:(sfx_of S)) as [o2 ->]. reflexivity. }
-    rewrite E.
-    assert (L : length (s ++ rest) < length (pr_blank b1 (txt "." ++ pr_blank b2 (s ++ rest)))).
-    { assert (S1 : sfx (txt "." ++ pr_blank b2 (s ++ rest)) (pr_blank b1 (txt "." ++ pr_blank b2 (s ++ rest)))) by auto with sfxdb.
-      assert (S2 : sfx (s ++ rest) (pr_blank b2 (s ++ rest))) by auto with sfxdb.
-      apply sfx_len in S1, S2. change (txt "." ++ pr_blank b2 (s ++ rest)) with (x2e :: pr_blank b2 (s ++ rest)) in *.
-      cbn [length] in S1. lia. }
-    assert (SL : same_len (s ++ rest) (pr_blank b1 (txt "." ++ pr_blank b2 (s ++ rest))) = false).
-    { destruct (same_len (s ++ rest) (pr_blank b1 (txt "." ++ pr_blank b2 (s ++ rest)))) eqn:E2; [|reflexivity].
-      apply same_len_iff in E2. lia. }
-    rewrite SL. rewrite (rt_ident s rest Hs (path_tail_head t k Hwt Hk1)).
-    assert (S3 : sfx rest (s ++ rest)) by auto with sfxdb. apply sfx_len in S3.
-    assert (S4 : sfx rest whole) by (sfx_of S).
-    subst rest. rewrite (IH k f Hwt (conj Hk1 Hk2)); [reflexivity|exact S4|lia].
-Qed.
-
-Lemma rt_path p k : wf_path p = true -> pfollow lf k -> sfx (pr_path p k) whole ->
-  p_path lf (pr_path p k) = POk k (erase_path p).
-Proof.
-  intros Hw Hk S. destruct p as [h t]. unfold wf_path, pr_path, erase_path in *. cbn [cp_head cp_tail] in *.
-  apply andb_prop in Hw. destruct Hw as [Hh Ht]. unfold p_path, separated_list1.
-  rewrite (rt_ident h (pr_path_tail t k) Hh (path_tail_head t k Ht (proj1 Hk))). cbn [pbind].
-  rewrite (path_loop t k lf Ht Hk); [reflexivity|sfx_of S|]. eapply sfx_lt; [exact Hlf|sfx_of S].
-Qed.
-
-End WithFuel.
 
 (* ---------- types ---------- *)
 Fixpoint simple_ty (t : cty) : bool :=
@@ -180,12 +27,21 @@ Fixpoint ty_depth (t : cty) : nat :=
   end
 with type_depth (t : ctype) : nat := match t with CType t _ => ty_depth t end.
 
-(* what follows a type: an optional blank and then something that is neither a cpp_type clause, nor a '.', nor an
-   annotation list; if there is no blank and the type ends with a word, something that ends the word *)
+(* what follows a Ty: an optional blank and then something that is neither a cpp_type clause nor a '.'; if there is no
+   blank and the type ends with a word, something that ends the word *)
+Definition tyfollow0 (lf : nat) (ends_word : bool) (k : list byte) : Prop :=
+  exists bl k', k = pr_blank bl k' /\ wf_blank bl = true /\ nb k' = true /\
+    is_perr (p_cpp_type lf k') /\ is_perr (tag sym_path_dot k') /\
+    (bl = [] -> ends_word = true -> wordend k' = true).
+
+(* what follows a Type: the same, and not an annotation list either *)
 Definition tyfollow (lf : nat) (ends_word : bool) (k : list byte) : Prop :=
   exists bl k', k = pr_blank bl k' /\ wf_blank bl = true /\ nb k' = true /\
     is_perr (p_cpp_type lf k') /\ is_perr (tag sym_path_dot k') /\ is_perr (p_annotations lf k') /\
     (bl = [] -> ends_word = true -> wordend k' = true).
+
+Lemma tyfollow_0 lf e k : tyfollow lf e k -> tyfollow0 lf e k.
+Proof. intros [bl [k' [E [Hw [Hn [Hc [Hd [_ He]]]]]]]]. exists bl, k'. tauto. Qed.
 
 Fixpoint mism (kw s : list byte) : bool :=
   match kw, s with
@@ -263,12 +119,12 @@ Variable lf : nat.
 Variable whole : list byte.
 Hypothesis Hlf : length whole < lf.
 
-Lemma follow_wordend e k : tyfollow lf e k -> e = true -> wordend k = true.
+Lemma follow_wordend e k : tyfollow0 lf e k -> e = true -> wordend k = true.
 Proof.
-  intros [bl [k' [-> [Hw [Hn [_ [_ [_ Hwe]]]]]]]] He. apply blank_then; auto. apply blank_start_wordend.
+  intros [bl [k' [-> [Hw [Hn [_ [_ Hwe]]]]]]] He. apply blank_then; auto. apply blank_start_wordend.
 Qed.
 
-Lemma follow_nocpp e k : tyfollow lf e k -> sfx k whole ->
+Lemma follow_nocpp e k : tyfollow0 lf e k -> sfx k whole ->
   opt (fun i => do i, _ <- p_blank lf i ;; p_cpp_type lf i) k = POk k None.
 Proof.
   intros [bl [k' [-> [Hw [Hn [Hc _]]]]]] S. apply opt_err. destruct bl as [|a bl].
@@ -276,7 +132,7 @@ Proof.
   - rewrite (rt_blank lf (a :: bl) k' Hw ltac:(discriminate) Hn (sfx_lt lf whole _ Hlf S)). cbn [pbind]. exact Hc.
 Qed.
 
-Lemma follow_nodot e k : tyfollow lf e k -> sfx k whole -> is_perr (p_path_sep lf k).
+Lemma follow_nodot e k : tyfollow0 lf e k -> sfx k whole -> is_perr (p_path_sep lf k).
 Proof.
   intros [bl [k' [-> [Hw [Hn [_ [Hd _]]]]]]] S. unfold p_path_sep.
   destruct (oblank lf whole Hlf bl k' Hw Hn S) as [o ->]. cbn [pbind]. apply pbind_err, Hd.
@@ -296,6 +152,13 @@ Proof.
     try (unfold p_cpp_type; apply pbind_err; exact I); try (unfold p_annotations; apply pbind_err; exact I).
 Qed.
 
+(* a Ty followed by the annotation list of its Type *)
+Lemma tyfollow0_paren e bl a r : wf_blank bl = true -> tyfollow0 lf e (pr_blank bl (pr_anns a r)).
+Proof.
+  intros Hw. exists bl, (pr_anns a r). split; [reflexivity|]. split; [exact Hw|].
+  repeat split; try reflexivity; try exact I; try (unfold p_cpp_type; apply pbind_err; exact I).
+Qed.
+
 Lemma ty_head_nb t k : wf_ty t = true -> nb (pr_ty t k) = true.
 Proof.
   destruct t as [b| | | |p]; cbn [pr_ty]; intros H; try reflexivity.
@@ -304,8 +167,11 @@ Proof.
     destruct H as [H _]. unfold pr_path. now apply ident_nb.
 Qed.
 
-Lemma type_head_nb t k : wf_type t = true -> simple_type t = true -> nb (pr_type t k) = true.
-Proof. destruct t as [t [a|]]; cbn [pr_type simple_type wf_type]; intros H S; [discriminate|]. now apply ty_head_nb. Qed.
+Lemma type_head_nb t k : wf_type t = true -> nb (pr_type t k) = true.
+Proof.
+  destruct t as [t [[bl a]|]]; cbn [pr_type wf_type]; intros H; [|now apply ty_head_nb].
+  apply andb_prop in H. destruct H as [H _]. apply andb_prop in H. destruct H as [H _]. now apply ty_head_nb.
+Qed.
 
 (* a word that begins with list / set / map but is longer is not a container type *)
 Lemma container_word_err {A} (kw : list byte) (rest : parser A) s k :
@@ -330,26 +196,37 @@ Proof. intros H. apply tag_hd_ne. destruct (Byte.eqb c x3c) eqn:E; [|reflexivity
 Lemma nb_sep semi x : nb (sep_byte semi :: x) = true.
 Proof. destruct semi; reflexivity. Qed.
 
-Ltac ob Hwf S :=
-  match goal with |- context [opt (p_blank _) (pr_blank ?b ?k)] =>
-    let o := fresh "o" in
-    destruct (oblank lf whole Hlf b k Hwf
-                ltac:(first [reflexivity | apply nb_sep | apply type_head_nb; assumption])
-                ltac:(sfx_of S)) as [o ->]; cbn [pbind] end.
+Ltac ob S := obk lf whole Hlf S ltac:(first [reflexivity | apply nb_sep | apply type_head_nb; assumption]).
+
+(* the optional cpp_type clause of a container type *)
+Lemma ocpp_ok cpp k : wf_ocpp cpp = true -> (cpp = None -> tyfollow0 lf false k) -> sfx (pr_ocpp cpp k) whole ->
+  opt (fun i => do i, _ <- p_blank lf i ;; p_cpp_type lf i) (pr_ocpp cpp k) = POk k (erase_ocpp cpp).
+Proof.
+  intros Hw Hf S. destruct cpp as [c|]; cbn [pr_ocpp wf_ocpp erase_ocpp option_map] in *.
+  - apply opt_ok. exact (rt_cpp lf whole Hlf c k Hw S).
+  - exact (follow_nocpp false k (Hf eq_refl) S).
+Qed.
+
+Lemma tyfollow0_weaken e k : tyfollow0 lf e k -> tyfollow0 lf false k.
+Proof. intros [bl [k' [E [Hw [Hn [Hc [Hd _]]]]]]]. exists bl, k'. repeat split; auto. discriminate. Qed.
 
 Lemma rt_ty : forall d t k,
-  ty_depth t < d -> wf_ty t = true -> simple_ty t = true -> tyfollow lf (ty_ends_word t) k -> sfx (pr_ty t k) whole ->
+  ty_depth t < d -> wf_ty t = true -> tyfollow0 lf (ty_ends_word t) k -> sfx (pr_ty t k) whole ->
   p_ty lf d (pr_ty t k) = POk k (erase_ty t).
 Proof.
-  induction d as [|d IH]; intros t k Hd Hw Hs Hf S; [lia|].
+  induction d as [|d IH]; intros t k Hd Hw Hf S; [lia|].
   (* the Type level, for the inner types *)
-  assert (IHT : forall c r, type_depth c < d -> wf_type c = true -> simple_type c = true ->
+  assert (IHT : forall c r, type_depth c < d -> wf_type c = true ->
             tyfollow lf (type_ends_word c) r -> sfx (pr_type c r) whole ->
             p_type_of lf (p_ty lf d) (pr_type c r) = POk r (erase_type c)).
-  { intros [t' [a|]] r Hd' Hw' Hs' Hf' S'; cbn [simple_type] in Hs'; [discriminate|].
-    cbn [pr_type wf_type type_depth type_ends_word erase_type] in *. unfold p_type_of.
-    rewrite (IH t' r Hd' Hw' Hs' Hf' S'). cbn [pbind].
-    rewrite (follow_noann _ r Hf') by (sfx_of S'). reflexivity. }
+  { intros [t' [[bl a]|]] r Hd' Hw' Hf' S'; cbn [pr_type wf_type type_depth type_ends_word erase_type] in *; unfold p_type_of.
+    - bsplit Hw'. destruct a as [|a0 a]; [discriminate|].
+      rewrite (IH t' _ Hd' Hw' (tyfollow0_paren _ bl _ _ W0) S'). cbn [pbind].
+      erewrite opt_ok; [reflexivity|]. unfold permutation2.
+      destruct (oblank lf whole Hlf bl (pr_anns (a0 :: a) r) W0 eq_refl ltac:(sfx_of S')) as [o ->].
+      rewrite (rt_anns lf whole Hlf (a0 :: a) r W) by (sfx_of S'). reflexivity.
+    - rewrite (IH t' r Hd' Hw' (tyfollow_0 _ _ _ Hf') S'). cbn [pbind].
+      rewrite (follow_noann _ r Hf') by (sfx_of S'). reflexivity. }
   rewrite p_ty_eq. destruct t as [b|b1 b2 inner b3 cpp|cpp b1 b2 inner b3|cpp b1 b2 key b3 semi b4 value b5|p].
   - (* base types *)
     cbn [pr_ty erase_ty ty_ends_word] in *. pose proof (follow_wordend _ k Hf eq_refl) as We.
@@ -358,72 +235,55 @@ Proof.
       repeat (rewrite alt_err by (apply base_err; reflexivity));
       (apply alt_ok, base_ok; [reflexivity|exact We]).
   - (* list *)
-    cbn [pr_ty erase_ty wf_ty simple_ty ty_depth] in *.
-    repeat (apply andb_prop in Hw; destruct Hw as [Hw ?]).
-    apply andb_prop in Hs. destruct Hs as [Hsi Hsc]. destruct cpp; [discriminate|]. cbn [pr_ocpp erase_ocpp option_map] in *.
+    cbn [pr_ty erase_ty wf_ty ty_depth ty_ends_word] in *. bsplit Hw.
     rewrite alt_skip by (apply base_alts_err; repeat apply Forall_cons; try apply Forall_nil; reflexivity).
     apply alt_ok. unfold alt_list.
-    change kw_ty_list with (txt "list"). rewrite tag_ok. cbn [pbind].
-    ob Hw S.
-    change sym_list_lt with (txt "<"). rewrite tag_ok. cbn [pbind].
-    ob H2 S.
-    assert (F3 : tyfollow lf (type_ends_word inner) (pr_blank b3 (txt ">" ++ pr_ocpp None k)))
+    tg kw_ty_list (txt "list"). ob S. tg sym_list_lt (txt "<"). ob S.
+    assert (F3 : tyfollow lf (type_ends_word inner) (pr_blank b3 (txt ">" ++ pr_ocpp cpp k)))
       by (apply (tyfollow_punct _ b3 x3e); [assumption|tauto]).
-    cbn [pr_ocpp] in F3. rewrite (IHT inner _ ltac:(clear - Hd; lia) H1 Hsi F3 ltac:(sfx_of S)). cbn [pbind].
-    ob H0 S.
-    change sym_list_gt with (txt ">"). rewrite tag_ok. cbn [pbind].
-    rewrite (follow_nocpp _ k Hf) by (sfx_of S). reflexivity.
+    rewrite (IHT inner _ ltac:(clear - Hd; lia) ltac:(assumption) F3 ltac:(sfx_of S)). cbn [pbind].
+    ob S. tg sym_list_gt (txt ">").
+    rewrite (ocpp_ok cpp k ltac:(assumption) (fun _ => Hf) ltac:(sfx_of S)). reflexivity.
   - (* set *)
-    cbn [pr_ty erase_ty wf_ty simple_ty ty_depth] in *.
-    repeat (apply andb_prop in Hw; destruct Hw as [Hw ?]).
-    apply andb_prop in Hs. destruct Hs as [Hsi Hsc]. destruct cpp; [discriminate|]. cbn [pr_ocpp erase_ocpp option_map] in *.
+    cbn [pr_ty erase_ty wf_ty ty_depth] in *. bsplit Hw.
     rewrite alt_skip by (apply base_alts_err; repeat apply Forall_cons; try apply Forall_nil; reflexivity).
     rewrite alt_err by (unfold alt_list; apply pbind_err; exact I).
     apply alt_ok. unfold alt_set.
-    change kw_ty_set with (txt "set"). rewrite tag_ok. cbn [pbind].
-    assert (Fl : tyfollow lf false (pr_blank b1 (txt "<" ++ pr_blank b2 (pr_type inner (pr_blank b3 (txt ">" ++ k))))))
-      by (apply (tyfollow_punct _ b1 x3c); [assumption|tauto]).
-    rewrite (follow_nocpp _ _ Fl) by (sfx_of S). cbn [pbind].
-    ob H2 S.
-    change sym_set_lt with (txt "<"). rewrite tag_ok. cbn [pbind].
-    ob H1 S.
+    tg kw_ty_set (txt "set").
+    match goal with |- context [opt _ (pr_ocpp cpp ?X)] =>
+      assert (Fl : tyfollow0 lf false X) by (apply tyfollow_0, (tyfollow_punct _ b1 x3c); [assumption|tauto]);
+      rewrite (ocpp_ok cpp X ltac:(assumption) (fun _ => Fl) ltac:(sfx_of S)) end.
+    cbn [pbind]. ob S. tg sym_set_lt (txt "<"). ob S.
     assert (F3 : tyfollow lf (type_ends_word inner) (pr_blank b3 (txt ">" ++ k)))
       by (apply (tyfollow_punct _ b3 x3e); [assumption|tauto]).
-    rewrite (IHT inner _ ltac:(clear - Hd; lia) H0 Hsi F3 ltac:(sfx_of S)). cbn [pbind].
-    ob H S.
-    change sym_set_gt with (txt ">"). rewrite tag_ok. reflexivity.
+    rewrite (IHT inner _ ltac:(clear - Hd; lia) ltac:(assumption) F3 ltac:(sfx_of S)). cbn [pbind].
+    ob S. tg sym_set_gt (txt ">"). reflexivity.
   - (* map *)
-    cbn [pr_ty erase_ty wf_ty simple_ty ty_depth] in *.
-    repeat (apply andb_prop in Hw; destruct Hw as [Hw ?]).
-    apply andb_prop in Hs. destruct Hs as [Hs Hsc]. apply andb_prop in Hs. destruct Hs as [Hsk Hsv].
-    destruct cpp; [discriminate|]. cbn [pr_ocpp erase_ocpp option_map] in *.
+    cbn [pr_ty erase_ty wf_ty ty_depth] in *. bsplit Hw.
     rewrite alt_skip by (apply base_alts_err; repeat apply Forall_cons; try apply Forall_nil; reflexivity).
     rewrite alt_err by (unfold alt_list; apply pbind_err; exact I).
     rewrite alt_err by (unfold alt_set; apply pbind_err; exact I).
     apply alt_ok. unfold alt_map.
-    change kw_ty_map with (txt "map"). rewrite tag_ok. cbn [pbind].
-    match goal with |- context [opt (fun i => do i0, _ <- p_blank lf i;; p_cpp_type lf i0) ?X] =>
-      assert (Fl : tyfollow lf false X) by (apply (tyfollow_punct _ b1 x3c); [assumption|tauto]) end.
-    rewrite (follow_nocpp _ _ Fl) by (sfx_of S). cbn [pbind].
-    ob H5 S.
-    change sym_map_lt with (txt "<"). rewrite tag_ok. cbn [pbind].
-    ob H4 S.
+    tg kw_ty_map (txt "map").
+    match goal with |- context [opt _ (pr_ocpp cpp ?X)] =>
+      assert (Fl : tyfollow0 lf false X) by (apply tyfollow_0, (tyfollow_punct _ b1 x3c); [assumption|tauto]);
+      rewrite (ocpp_ok cpp X ltac:(assumption) (fun _ => Fl) ltac:(sfx_of S)) end.
+    cbn [pbind]. ob S. tg sym_map_lt (txt "<"). ob S.
     assert (Fk : tyfollow lf (type_ends_word key) (pr_blank b3 (sep_byte semi :: pr_blank b4 (pr_type value (pr_blank b5 (txt ">" ++ k)))))).
     { apply tyfollow_punct; [assumption|]. destruct semi; cbn [sep_byte]; tauto. }
     assert (Dk : type_depth key < d) by (clear - Hd; lia). assert (Dv : type_depth value < d) by (clear - Hd; lia).
     assert (Sk : sfx (pr_type key (pr_blank b3 (sep_byte semi :: pr_blank b4 (pr_type value (pr_blank b5 (txt ">" ++ k)))))) whole) by (sfx_of S).
     assert (Sv : sfx (pr_type value (pr_blank b5 (txt ">" ++ k))) whole) by (sfx_of S).
-    pose proof (IHT key _ Dk H3 Hsk Fk Sk) as Ek. rewrite Ek. cbn [pbind].
-    ob H2 S.
+    rewrite (IHT key _ Dk ltac:(assumption) Fk Sk). cbn [pbind].
+    ob S.
     unfold p_list_separator. cbn [one_of].
     assert (M : bmem (sep_byte semi) set_list_separator = true) by (destruct semi; reflexivity). rewrite M. cbn [pbind].
-    ob H1 S.
-    rewrite (opt_err (p_blank lf)) by (apply blank_err, (type_head_nb value _ H0 Hsv)). cbn [pbind].
+    ob S.
+    rewrite (opt_err (p_blank lf)) by (apply blank_err, type_head_nb; assumption). cbn [pbind].
     assert (F5 : tyfollow lf (type_ends_word value) (pr_blank b5 (txt ">" ++ k)))
       by (apply (tyfollow_punct _ b5 x3e); [assumption|tauto]).
-    pose proof (IHT value _ Dv H0 Hsv F5 Sv) as Ev. rewrite Ev. cbn [pbind].
-    ob H S.
-    change sym_map_gt with (txt ">"). rewrite tag_ok. reflexivity.
+    rewrite (IHT value _ Dv ltac:(assumption) F5 Sv). cbn [pbind].
+    ob S. tg sym_map_gt (txt ">"). reflexivity.
   - (* path *)
     cbn [pr_ty erase_ty wf_ty] in *. apply andb_prop in Hw. destruct Hw as [Hwp Hnw].
     pose proof Hwp as Hwp'. unfold wf_path in Hwp'. apply andb_prop in Hwp'. destruct Hwp' as [Hh Ht].
@@ -454,16 +314,20 @@ Proof.
     rewrite (rt_path lf whole Hlf (mkCPath h tl) k Hwp (conj Hk1 (follow_nodot _ k Hf ltac:(sfx_of S))) S). reflexivity.
 Qed.
 
-(* Type::parse inverts the printing of every simple type under every layout *)
+(* Type::parse inverts the printing of every type under every layout *)
 Theorem rt_type : forall df t k,
-  type_depth t < df -> wf_type t = true -> simple_type t = true -> tyfollow lf (type_ends_word t) k ->
+  type_depth t < df -> wf_type t = true -> tyfollow lf (type_ends_word t) k ->
   sfx (pr_type t k) whole ->
   p_type lf df (pr_type t k) = POk k (erase_type t).
 Proof.
-  intros df [t [a|]] k Hd Hw Hs Hf S; cbn [simple_type] in Hs; [discriminate|].
-  cbn [pr_type wf_type type_depth type_ends_word erase_type] in *. unfold p_type, p_type_of.
-  rewrite (rt_ty df t k Hd Hw Hs Hf S). cbn [pbind].
-  rewrite (follow_noann _ k Hf) by (sfx_of S). reflexivity.
+  intros df [t [[bl a]|]] k Hd Hw Hf S; cbn [pr_type wf_type type_depth type_ends_word erase_type] in *; unfold p_type, p_type_of.
+  - bsplit Hw. destruct a as [|a0 a]; [discriminate|].
+    rewrite (rt_ty df t _ Hd Hw (tyfollow0_paren _ bl _ _ W0) S). cbn [pbind].
+    erewrite opt_ok; [reflexivity|]. unfold permutation2.
+    destruct (oblank lf whole Hlf bl (pr_anns (a0 :: a) k) W0 eq_refl ltac:(sfx_of S)) as [o ->].
+    rewrite (rt_anns lf whole Hlf (a0 :: a) k W) by (sfx_of S). reflexivity.
+  - rewrite (rt_ty df t k Hd Hw (tyfollow_0 _ _ _ Hf) S). cbn [pbind].
+    rewrite (follow_noann _ k Hf) by (sfx_of S). reflexivity.
 Qed.
 
 End Types.
@@ -471,14 +335,14 @@ End Types.
 (* layout independence for types: two layouts of the same type parse to the same tree *)
 Corollary type_layout_free lf whole1 whole2 df t1 t2 k1 k2 :
   length whole1 < lf -> length whole2 < lf ->
-  type_depth t1 < df -> wf_type t1 = true -> simple_type t1 = true -> tyfollow lf (type_ends_word t1) k1 -> sfx (pr_type t1 k1) whole1 ->
-  type_depth t2 < df -> wf_type t2 = true -> simple_type t2 = true -> tyfollow lf (type_ends_word t2) k2 -> sfx (pr_type t2 k2) whole2 ->
+  type_depth t1 < df -> wf_type t1 = true -> tyfollow lf (type_ends_word t1) k1 -> sfx (pr_type t1 k1) whole1 ->
+  type_depth t2 < df -> wf_type t2 = true -> tyfollow lf (type_ends_word t2) k2 -> sfx (pr_type t2 k2) whole2 ->
   erase_type t1 = erase_type t2 ->
   exists a, p_type lf df (pr_type t1 k1) = POk k1 a /\ p_type lf df (pr_type t2 k2) = POk k2 a.
 Proof.
-  intros L1 L2 D1 W1 S1 F1 X1 D2 W2 S2 F2 X2 E. exists (erase_type t1). split.
-  - exact (rt_type lf whole1 L1 df t1 k1 D1 W1 S1 F1 X1).
-  - rewrite E. exact (rt_type lf whole2 L2 df t2 k2 D2 W2 S2 F2 X2).
+  intros L1 L2 D1 W1 F1 X1 D2 W2 F2 X2 E. exists (erase_type t1). split.
+  - exact (rt_type lf whole1 L1 df t1 k1 D1 W1 F1 X1).
+  - rewrite E. exact (rt_type lf whole2 L2 df t2 k2 D2 W2 F2 X2).
 Qed.
 
 (* non-vacuity: map /*c*/ < listing , list<i32x>#h\n > followed by " x" -- a keyword-prefixed path, all three
